@@ -225,25 +225,25 @@ Qed.
 
 (* the slot handed out carries an id between 1 and the maximum of the header width that no slot in use has;
    the slots in use stay what they were (and in their order) *)
-Lemma reserve_fresh hasbuf tab idl tag tab' k id :
-  reserve hasbuf tab idl tag = Some (tab', k, id) ->
+Lemma reserve_max_fresh hasbuf tab mxv tag tab' k id :
+  reserve_max hasbuf tab mxv tag = Some (tab', k, id) ->
   nth_error tab' k = Some (mkwe id (Some tag)) /\
   act_ids tab' = (if hasbuf then act_ids tab else []) ++ [id] /\
-  (hasbuf = true -> ~ In id (act_ids tab)) /\ (1 <= id <= maxid idl)%N.
+  (hasbuf = true -> ~ In id (act_ids tab)) /\ (1 <= id <= mxv)%N.
 Proof.
-  unfold reserve. destruct (N.eqb_spec (maxid idl) 0) as [|Hmx]; [discriminate|].
+  unfold reserve_max. destruct (N.eqb_spec (mxv) 0) as [|Hmx]; [discriminate|].
   destruct hasbuf; cbn [negb].
   2:{ intros E; inversion E; subst. repeat split; try discriminate; lia. }
   destruct (compact_all tab) as (tab1 & used & -> & Hbase & Hused). rewrite Hbase.
   set (mid := maxids tab 0%N).
   assert (Hid : forall id0,
-    (if (maxid idl <=? mid)%N then low_id (tactive tab) 1 (maxid idl) (S used) else Some (mid + 1)%N) = Some id0 ->
-    ~ In id0 (act_ids tab) /\ (1 <= id0 <= maxid idl)%N).
-  { intros id0. destruct (N.leb_spec (maxid idl) mid) as [Hle|Hlt].
+    (if (mxv <=? mid)%N then low_id (tactive tab) 1 (mxv) (S used) else Some (mid + 1)%N) = Some id0 ->
+    ~ In id0 (act_ids tab) /\ (1 <= id0 <= mxv)%N).
+  { intros id0. destruct (N.leb_spec (mxv) mid) as [Hle|Hlt].
     - intros H. apply low_id_free in H. rewrite act_ids_active in H. exact H.
     - intros E; inversion E; subst. split; [|lia].
       intros Hin. apply act_ids_bound in Hin. fold mid in Hin. lia. }
-  destruct (if (maxid idl <=? mid)%N then _ else _) as [id0|]; [|discriminate].
+  destruct (if (mxv <=? mid)%N then _ else _) as [id0|]; [|discriminate].
   destruct (Hid id0 eq_refl) as [Hfresh Hrange].
   intros E; inversion E; subst. split; [|split; [|split]].
   - rewrite nth_error_app2, Nat.sub_diag by lia. reflexivity.
@@ -251,6 +251,13 @@ Proof.
   - intros _. exact Hfresh.
   - exact Hrange.
 Qed.
+
+Lemma reserve_fresh hasbuf tab idl tag tab' k id :
+  reserve hasbuf tab idl tag = Some (tab', k, id) ->
+  nth_error tab' k = Some (mkwe id (Some tag)) /\
+  act_ids tab' = (if hasbuf then act_ids tab else []) ++ [id] /\
+  (hasbuf = true -> ~ In id (act_ids tab)) /\ (1 <= id <= maxid idl)%N.
+Proof. unfold reserve. apply reserve_max_fresh. Qed.
 
 Lemma reserve_nodup hasbuf tab idl tag tab' k id :
   reserve hasbuf tab idl tag = Some (tab', k, id) -> (hasbuf = false -> tab = []) ->
